@@ -154,6 +154,9 @@ func scenRoundTrip(r *Run, job *Job, prop string) {
 			if p.respSize > MaxPayload {
 				p.mode = "oversize"
 			}
+			if t.Chance(1, 3) {
+				p.polls = 1 + t.Draw(2) // asks for the same event again before answering
+			}
 		}
 		p.cliCtx = drawCtx(t, rng)
 		if t.Chance(1, 3) {
